@@ -180,6 +180,9 @@ def define_dense():
     edges.append(("bom.c", "\ufeff" + header42.header_text("bom.c") + "\n" + func))
     edges.append(("bom.h", "\ufeff" + h2.replace("defs.h", "bom.h ") + body2.replace("DEFS_H", "BOM_H")))
     edges.append(("nbsp.c", "\u00a0" + func))
+    # non-ASCII text in comments and literals (decoding a stored file must give the characters the inline content has)
+    edges.append(("accent.c", header42.header_text("accent.c") + "\n// caf\u00e9 \u00fcber " + "x" * 64 + "\nchar\t*g_s = \"\u00e9t\u00e9\"; \n\n"
+                  + func.replace("return (0);", "return ('\u00e9' == 0);")))
     edges.append(("lexd.c", lexd))
     edges.append(("lexd.c", lexd + "char\t*g_s = \"never closed\n"))
     return edges + [("empty.c", ""), ("empty.h", ""), ("nl.c", "\n"), ("defs.c", h + body), ("defs.h", h2 + body2), ("file.c", header42.header_text("file.c") + "\n" + body),
